@@ -160,7 +160,7 @@ def one(sc, alg, kind, payload: bytes, with_ref: bool):
         fails.append(("protected-differs", json.dumps(got_prot)[:100]))
     if (got_unprot or None) != (exp_unprot or None):
         fails.append(("unprotected-differs", json.dumps(got_unprot)[:100]))
-    if with_ref and not fails:
+    if with_ref:
         # C07 (a): an independent implementation given only the exported public JWK verifies the token
         try:
             pj = pub.as_dict(private=False) if K.get(kind)["kty"] != "oct" else pub.as_dict()
